@@ -458,6 +458,8 @@ impl fmt::Write for NormalWriter {
         } else {
             print!("{}", string);
         }
+        #[cfg(feature = "verif")]
+        crate::verif::out_normal(string);
         LineTracker
             .write_str(string)
             .expect("`LineTracker::write_str` should never fail");
@@ -475,6 +477,8 @@ struct DebuggerWriter {
 impl fmt::Write for DebuggerWriter {
     /// Must never fail.
     fn write_str(&mut self, string: &str) -> fmt::Result {
+        #[cfg(feature = "verif")]
+        crate::verif::out_debugger(string);
         let color = match self.category {
             Category::Normal => debugger_colors::PRIMARY,
             Category::Info => debugger_colors::PRIMARY,
